@@ -231,8 +231,7 @@ Values(f) ==
     [] f = "vadvance" -> {65535, 65536, 65538, 70000, 131072, 0, -1, -3, -100} \cup (IF Thorough THEN U16Vals ELSE {})
     [] f = "tsb" -> Signed(DeltaMag)       \* both the origin and yMax stay representable
     [] f \in {"gvar_delta", "compoff_delta", "kern_delta", "anchor_delta", "adv_delta"} -> Signed(DeltaMag)
-    [] f = "glyph_count" -> IF Thorough THEN {65535, 65536} ELSE {}
-    [] f = "num_h_metrics" -> {}                     \* generated together with glyph_count (same source)
+    [] f \in {"glyph_count", "num_h_metrics"} -> {}   \* generated together (same source), see Linked
     [] f = "comp_points" -> {65534, 65535, 65536, 66000} \cup (IF Thorough THEN {131072, 196608} ELSE {})
     [] f = "comp_contours" -> {}                     \* paired with comp_points below
     [] f = "glyph_points" -> IF Thorough THEN {65535, 65536, 65636, 66000} ELSE {65535, 65636}
@@ -253,7 +252,7 @@ Singles == UNION {{[items |-> <<Item(f, v)>>, src |-> s] : v \in Values(f), s \i
 \* cases that only exist as a combination
 Linked ==
      {[items |-> <<Item("glyph_count", n), Item("num_h_metrics", n)>>, src |-> "static"] :
-        n \in (IF Thorough THEN {65535, 65536} ELSE {})}
+        n \in (IF Thorough THEN {65535, 65536, 65537} ELSE {})}
   \cup {[items |-> <<Item("comp_contours", n), Item("comp_points", 3 * n)>>, src |-> "static"] :
         n \in {65535, 65536} \cup (IF Thorough THEN {66000} ELSE {})}
 
